@@ -246,3 +246,129 @@ impl EffectBuilder for ProbeEffectBuilder {
 		)
 	}
 }
+
+// ---------------------------------------------------------------------------------------------
+// modulator probes (C17): a user-defined modulator and a sound with a modulator-linkable parameter,
+// both writing to one shared, ordered event log
+// ---------------------------------------------------------------------------------------------
+
+use kira::modulator::{Modulator, ModulatorBuilder, ModulatorId};
+use kira::{Parameter, Value};
+use std::sync::atomic::{AtomicBool, Ordering};
+
+/// One entry of the shared event log, in the order things happen on the audio thread.
+#[derive(Debug, Clone)]
+pub enum SysEvent {
+	/// a `ProbeModulator` was updated: its tag, `dt`, its value after the update, and what
+	/// `info.modulator_value` answered for every id on the watch list
+	ModUpdate { tag: usize, dt: f64, value: f64, seen: Vec<Option<f64>> },
+	/// a `ParamProbeSound` processed a slice: frames, `dt`, its parameter's value after the update, and
+	/// what `info.modulator_value` answered for every id on the watch list
+	SoundProcess { tag: usize, frames: usize, dt: f64, param: f64, seen: Vec<Option<f64>> },
+}
+pub type SysLog = Arc<Mutex<Vec<SysEvent>>>;
+/// ids every probe asks `Info` about (index = the suite's modulator number)
+pub type WatchList = Arc<Mutex<Vec<ModulatorId>>>;
+
+fn see(watch: &WatchList, info: &Info) -> Vec<Option<f64>> {
+	watch.lock().unwrap().iter().map(|id| info.modulator_value(*id)).collect()
+}
+
+/// A user-defined modulator whose value is the number of times it has been updated.
+pub struct ProbeModulator {
+	pub tag: usize,
+	pub count: f64,
+	pub log: SysLog,
+	pub watch: WatchList,
+	pub removed: Arc<AtomicBool>,
+}
+impl Modulator for ProbeModulator {
+	fn update(&mut self, dt: f64, info: &Info) {
+		self.count += 1.0;
+		let seen = see(&self.watch, info);
+		self.log.lock().unwrap().push(SysEvent::ModUpdate { tag: self.tag, dt, value: self.count, seen });
+	}
+	fn value(&self) -> f64 {
+		self.count
+	}
+	fn finished(&self) -> bool {
+		self.removed.load(Ordering::SeqCst)
+	}
+}
+pub struct ProbeModulatorHandle {
+	pub id: ModulatorId,
+	pub removed: Arc<AtomicBool>,
+}
+impl Drop for ProbeModulatorHandle {
+	fn drop(&mut self) {
+		self.removed.store(true, Ordering::SeqCst);
+	}
+}
+pub struct ProbeModulatorBuilder {
+	pub tag: usize,
+	pub log: SysLog,
+	pub watch: WatchList,
+}
+impl ModulatorBuilder for ProbeModulatorBuilder {
+	type Handle = ProbeModulatorHandle;
+	fn build(self, id: ModulatorId) -> (Box<dyn Modulator>, ProbeModulatorHandle) {
+		let removed = Arc::new(AtomicBool::new(false));
+		(
+			Box::new(ProbeModulator { tag: self.tag, count: 0.0, log: self.log, watch: self.watch, removed: removed.clone() }),
+			ProbeModulatorHandle { id, removed },
+		)
+	}
+}
+
+/// A sound that emits a constant frame and owns a `Parameter<f64>` (the way kira's own sounds own
+/// their volume / playback-rate parameters): updated once per `process` call with `dt * out.len()`.
+pub struct ParamProbeSound {
+	pub tag: usize,
+	pub param: Parameter<f64>,
+	pub frame: Frame,
+	pub log: SysLog,
+	pub watch: WatchList,
+}
+impl Sound for ParamProbeSound {
+	fn process(&mut self, out: &mut [Frame], dt: f64, info: &Info) {
+		self.param.update(dt * out.len() as f64, info);
+		let seen = see(&self.watch, info);
+		self.log.lock().unwrap().push(SysEvent::SoundProcess {
+			tag: self.tag,
+			frames: out.len(),
+			dt,
+			param: self.param.value(),
+			seen,
+		});
+		for f in out.iter_mut() {
+			*f = self.frame;
+		}
+	}
+	fn finished(&self) -> bool {
+		false
+	}
+}
+pub struct ParamProbeSoundData {
+	pub tag: usize,
+	pub value: Value<f64>,
+	pub default: f64,
+	pub frame: Frame,
+	pub log: SysLog,
+	pub watch: WatchList,
+}
+impl SoundData for ParamProbeSoundData {
+	type Error = ();
+	type Handle = ();
+	fn into_sound(self) -> Result<(Box<dyn Sound>, ()), ()> {
+		Ok((
+			Box::new(ParamProbeSound {
+				tag: self.tag,
+				param: Parameter::new(self.value, self.default),
+				frame: self.frame,
+				log: self.log,
+				watch: self.watch,
+			}),
+			(),
+		))
+	}
+}
